@@ -94,6 +94,8 @@ def step (s : St) (line : String) : St × String :=
         let flags := s!"valid={b01 (validBlockB s.P b shadow)} gvalid={b01 (gvalidBlockB s.P b gshadow)} novote={b01 (noOwnedVoteBlockB s.P b)}"
         ({ s with w := w', chain := b :: s.chain }, "ok " ++ flags ++ " " ++ dump w')
     | none => (s, "bad-op")
+  | ["pool", _, _] => (s, "ok")      -- pool events do not touch the wallet's UTXO records
+  | ["unpool", _, _] => (s, "ok")
   | ["detach", id] =>
     match id.toNat? >>= fun id => s.blocks.find? (fun b => b.id == id) with
     | some b =>
